@@ -6,6 +6,7 @@ Abstract cells are the JSON form of KernModel.Abstract.ACell; the Lean driver re
 (one renderer) and says what the listener must build (`tokOf`).
 """
 from __future__ import annotations
+import zlib
 
 # the 30 signifiers that do not combine with their neighbours (probed: all positions, repeats, ordered pairs)
 SIG30 = list('"' + "$'()/:;JKLMNOSV[\\]^_`klmst{}~")
@@ -14,6 +15,7 @@ assert len(SIG30) == 30
 SIG_DISPLAY = list('XijZ')
 REST_SIG = list("();'{}")          # restDecoration alternatives that are kept (stems are discarded by the listener)
 REST_SIG_NOACC = ['X']
+REST_POS = ['GG', 'dd', 'c', 'D', 'ee', 'b', 'AAA', 'f', 'BB']   # restPosition (vertical position of a rest): kept as one decoration, written after the r
 LETTERS = 'cdefgab'
 ACCS = ['', '', '', '#', '-', '##', '--', 'n', '###', '---']
 DISPLAYS = ['', '', '', 'X', 'x', 'i', 'I', 'j', 'Z', 'y', 'yy', 'Y', 'YY']
@@ -83,7 +85,10 @@ class CellGen:
     def rest(self, dur_required=False):
         r = self.rng
         d = self.dur(allow_none=not dur_required)
-        return {'k': 'rest', 'pre': self.sigs(REST_SIG, 2), 'dur': d, 'rr': 'rr' if r.random() < 0.1 else 'r', 'post': self.sigs(REST_SIG + REST_SIG_NOACC, 2)}
+        post = self.sigs(REST_SIG + REST_SIG_NOACC, 2)
+        if r.random() < 0.2:
+            post.insert(r.randint(0, len(post)), r.choice(REST_POS))
+        return {'k': 'rest', 'pre': self.sigs(REST_SIG, 2), 'dur': d, 'rr': 'rr' if r.random() < 0.1 else 'r', 'post': post}
 
     def elem(self):
         return self.rest() if self.rng.random() < 0.2 else self.note()
@@ -564,6 +569,15 @@ def clean(c):
     return {k: v for k, v in c.items() if not k.startswith('_')}
 
 
+def glue_safe(chord):
+    """a chord whose notes can be written without separating spaces and still be read as the same notes"""
+    for e in chord['es'][1:]:
+        d = e.get('dur')
+        if d is None or not d.get('num') or e.get('pre'):
+            return False
+    return True
+
+
 def render_documents(driver, docs):
     """fills c['text'] (rendered by the Lean driver), c['kern'] (expected default export of the cell, from the abstract
     description) and returns the document texts"""
@@ -572,6 +586,10 @@ def render_documents(driver, docs):
     for c, r in zip(cells, resp):
         c['_text'] = r['text']
         c['_kern'] = r['kern'].get('ok')
+        # the grammar lets the notes of a chord follow each other without a space (`chordSpace: SPACE?`): some chords are written that way
+        # when that cannot change how the cell is read (every later note starts with its own duration digits)
+        if c.get('k') == 'chord' and glue_safe(c) and zlib.crc32(c['_text'].encode('utf-8')) % 4 == 0:
+            c['_text'] = c['_text'].replace(' ', '')
     texts = []
     for d in docs:
         lines = []
